@@ -381,6 +381,10 @@ func appendSlice(expr ast.Expr, lhsV reflect.Value, rhsV reflect.Value) (reflect
 		return nilValue, newStringError(expr, "invalid type conversion")
 	}
 
+	// every element is converted before the first one is appended: lhs may share its spare capacity with
+	// another slice, and an append that fails on a later element must not have written into it
+	converted := make([]reflect.Value, 0, rhsV.Len())
+
 	if !leftHasSubArray && !rightHasSubArray {
 		for i := 0; i < rhsV.Len(); i++ {
 			value := rhsV.Index(i)
@@ -389,16 +393,19 @@ func appendSlice(expr ast.Expr, lhsV reflect.Value, rhsV reflect.Value) (reflect
 			}
 			if !value.IsValid() {
 				// a nil element becomes the zero value of the element type
-				lhsV = reflect.Append(lhsV, reflect.Zero(lhsT))
+				converted = append(converted, reflect.Zero(lhsT))
 				continue
 			}
 			if lhsT == value.Type() {
-				lhsV = reflect.Append(lhsV, value)
+				converted = append(converted, value)
 			} else if value.Type().ConvertibleTo(lhsT) {
-				lhsV = reflect.Append(lhsV, value.Convert(lhsT))
+				converted = append(converted, value.Convert(lhsT))
 			} else {
 				return nilValue, newStringError(expr, "invalid type conversion")
 			}
+		}
+		for _, value := range converted {
+			lhsV = reflect.Append(lhsV, value)
 		}
 		return lhsV, nil
 	}
@@ -416,7 +423,10 @@ func appendSlice(expr ast.Expr, lhsV reflect.Value, rhsV reflect.Value) (reflect
 			if err != nil {
 				return nilValue, err
 			}
-			lhsV = reflect.Append(lhsV, newSlice)
+			converted = append(converted, newSlice)
+		}
+		for _, value := range converted {
+			lhsV = reflect.Append(lhsV, value)
 		}
 		return lhsV, nil
 	}
